@@ -346,6 +346,13 @@ func genPod(c *core.Choices, cfg *Config, idx int, withPorts bool) *PodDef {
 	}
 	if withPorts {
 		genPorts(c, cfg, p)
+		// pods this node's daemon must ignore at start-up: bound to another node, or on the host network
+		switch c.Choose(14) {
+		case 12:
+			p.OtherNode = true
+		case 13:
+			p.HostNetwork = true
+		}
 	}
 	return p
 }
